@@ -21,17 +21,29 @@ def _integer(string: str) -> int:
 class QuantityTransformer(_parser.Transformer[Any, "Quantity"]):
     inline = _parser.v_args(inline=True)
 
+    # Prefixes of different bases are combined in floating point, which an exponent of
+    # hundreds of digits overflows
+
     @inline
     def unit(self, numerator: Unit, denominator: Optional[Unit] = None) -> Unit:
-        return numerator / (denominator or One)
+        try:
+            return numerator / (denominator or One)
+        except OverflowError as e:
+            raise ParseError(str(e)) from e
 
     @inline
     def unit_sequence(self, *terms: Unit) -> Unit:
-        return reduce(operator.mul, terms)
+        try:
+            return reduce(operator.mul, terms)
+        except OverflowError as e:
+            raise ParseError(str(e)) from e
 
     @inline
     def term(self, symbol: str, exponent: int = 1) -> Unit:
-        return Unit.resolve_symbol(symbol) ** exponent
+        try:
+            return Unit.resolve_symbol(symbol) ** exponent
+        except OverflowError as e:
+            raise ParseError(str(e)) from e
 
     @inline
     def carat_exponent(self, exponent: str) -> int:
